@@ -82,6 +82,7 @@ BATCH_FULL = BATCH_QUICK + [
     [rec(Q_M7), rec(Q_M8), rec(Q_F7)],
     [rec(Q_HTTPS), rec(Q_X2), rec(Q_PUT), rec(Q_BASE)],
     [rec(Q_HOST), rec(Q_PORT), rec(Q_BASE), rec(Q_HOST), rec(Q_PORT)],
+    [rec(Q_BASE), rec(Q_BASE), rec(Q_HOST), rec(Q_BASE)],
 ]
 REQ_FULL = REQ_QUICK + [Q_PORT, Q_F7, Q_H1, Q_PAR1, Q_HTTPS, Q_RAW1, Q_RAW2, Q_M8, Q_X2, Q_PUT, Q_FA2]
 OPT_FULL = OPT_QUICK + [("ih", False), ("ip", True), ("ic", True), ("ic", False), ("iparams", ("t", "x")), ("iparams", ()),
